@@ -93,6 +93,21 @@ def handle (op : String) (args : List String) (_text : String) : Option String :
       | .error e => some (showErr e)
       | .ok (n, sum, xor) => some s!"{n} {hex16 sum} {hex16 xor}"
     | _, _, _, _ => some "PANIC"
+  | "treehashtask", [s, c, h, l, i] =>
+    -- one sub-tree: the task of the i-th second instruction (index into makeInstrs), same hash
+    match numArg s, numArg c, numArg h, numArg l, numArg i with
+    | some s, some c, some h, some l, some i =>
+      match (makeInstrs (min 3 s) (min 3 c))[i]? with
+      | none => some "BAD-ARGS"
+      | some instr =>
+        match buildTask s c (h != 0) l instr with
+        | .error e => some (showErr e)
+        | .ok sub =>
+          let (n, sum, xor) := sub.foldl (fun (acc : Nat × UInt64 × UInt64) p =>
+            let x := fnv (p.show (some (s, c)))
+            (acc.1 + 1, acc.2.1 + x, acc.2.2 ^^^ x)) (0, (0 : UInt64), (0 : UInt64))
+          some s!"{n} {hex16 sum} {hex16 xor}"
+    | _, _, _, _, _ => some "PANIC"
   | "treetasks", [s, c, h, l] =>
     some (withTree s c h l fun _ ls => ",".intercalate (ls.map fun sub => toString sub.length))
   | _, _ => none
